@@ -172,7 +172,11 @@ def check_restarts(cur):
             continue
         r = first_restart(blk)
         prev_pivot = (r, n_before) if r is not None else None
+        # an estimate exactly AT the tolerance may be accepted or rejected ("does not exceed the tolerance"; Adaptivity
+        # rejects it, the converged-collocation family accepts it): `requested` is the lenient list (may restart),
+        # `must` the strict one (has to restart)
         requested = [i for i, a in enumerate(blk) if (a['post']['est'] is not None and ad and a['post']['est'] >= ad.get('e_tol', 1.0)) or a['post']['rreq']]
+        must = [i for i, a in enumerate(blk) if (a['post']['est'] is not None and ad and a['post']['est'] > ad.get('e_tol', 1.0)) or a['post']['rreq']]
         # (a) restart position -> next block
         if r is not None:
             if from_first and r != 0:
@@ -189,9 +193,12 @@ def check_restarts(cur):
             elif not crashed:
                 cur.v('restart_without_next_block', block=blk[0]['block'])
         # a requested restart may only be ignored when the retry budget of the block's first step is exhausted
-        if requested and not budget_exhausted:
-            want_r = 0 if from_first else requested[0]
-            if r != want_r:
+        if must and not budget_exhausted:
+            ok_r = {0} if from_first else {must[0]} | {i for i in requested if i < must[0]}
+            if r not in ok_r:
+                cur.v('restart_request_lost', block=blk[0]['block'], requested=must, first_restarted=r)
+        elif requested and not budget_exhausted and r is not None:
+            if r not in ({0} if from_first else set(requested)):
                 cur.v('restart_request_lost', block=blk[0]['block'], requested=requested, first_restarted=r)
         if requested and budget_exhausted and r is not None:
             cur.v('restart_after_budget_exhausted', block=blk[0]['block'], attempts=run_len)
@@ -206,13 +213,17 @@ def check_restarts(cur):
                     continue
                 accepted = r is None or i < r
                 # (d) accepted => estimate below tolerance unless the retry budget was exhausted
-                if accepted and est >= e_tol and not budget_exhausted:
+                if accepted and est > e_tol and not budget_exhausted:
                     cur.v('accepted_above_tolerance', block=a['block'], slot=a['slot'], est=est)
                 # (e) proposal formula and clipping
                 dt = a['post']['dt']
                 prop = beta * dt * (e_tol / est) ** (1.0 / K)
                 want, binds = _clip(cfg, prop, dt, est >= e_tol)
                 got = a['post']['dt_new']
+                if cfg.get('adaptive_family') == 'polynomial':
+                    # another proposal formula (order of the polynomial estimate); only the restart clauses are judged
+                    a['binds'] = None
+                    continue
                 if got is None or abs(got - want) > 4 * np.spacing(abs(want)):
                     cur.v('dt_new_formula', block=a['block'], slot=a['slot'], got=got, want=want, est=est, dt=dt)
                 a['binds'] = binds
